@@ -169,6 +169,12 @@ def c14_cases(rng, tier):
         cases.append(c.replace("prog ops ", "prog bytes ", 1))
         oracles.append("o_both" + c[4:])
     P, op = gen_vm.P, gen_vm.op
+    # initial states other than the default one: the halt flag set, a non-empty repeat stack, parent memory
+    for body in ([P(2), op("COM"), op("POP"), op("COME"), P(5)], [P(1), op("COM"), P(1), op("ALOC"), op("STO"), op("COME"), P(5), P(6)], [P(1), P(2)]):
+        for kw in (dict(halt=True), dict(halt=True, pc=1), dict(rep=[(1, 5, 0)]), dict(pm=[[4, 5]], halt=True)):
+            c = gen_vm.case(body, sols=gen_vm.RICH_SOLS, **kw)
+            cases.append(c.replace("prog ops ", "prog bytes ", 1))
+            oracles.append("o_both" + c[4:])
     for extra in ([P(3), P(1), op("JMPIF"), P(9)], [P(5), P(1), op("JMPIF"), P(9)], [P(1)]):
         for pc in (0, 1, 4, 5, 6, 100):
             c = gen_vm.case(extra, pc=pc)
@@ -201,6 +207,17 @@ def c15_cases(rng, tier):
     for r in rows:
         for E in subsets + [64, 128, 255]:
             cases.append(f"contains {E} {hx(enc_op(r, 0))}")
+    # analyze: k repetitions of one effect op (or of several) before the first occurrence of another one
+    for k in (1, 5, 6, 7, 8, 20, 70):
+        for a in range(6):
+            for b in range(6):
+                if a != b and (tier != "quick" or (a + b + k) % 3 == 0):
+                    o = [(eff_ops[a], 0)] * k + [(rows[1], 0)] + [(eff_ops[b], 0)]
+                    cases.append(f"analyze {ops_toks(o)}")
+                    oracles.append(f"o_analyze {ops_toks(o)}")
+        o = [(eff_ops[i % 5], 0) for i in range(k * 5)] + [(eff_ops[5], 0)]
+        cases.append(f"analyze {ops_toks(o)}")
+        oracles.append(f"o_analyze {ops_toks(o)}")
     # analyze: all subsets of effect ops, each in two orders, padded
     for mask in range(64):
         ops = [(eff_ops[i], 0) for i in range(6) if mask >> i & 1]
